@@ -372,6 +372,7 @@ func (s *Sim) Learn(st *Step) {
 		if latest != nil && latest.Token == a.Secret && latest.State == Live && latest.PID == rec.SessIn["uid"] {
 			latest.State = Spent
 			bs.EVAuthed = true
+			bs.EVFor = latest.PID
 		}
 	}
 	for _, ch := range rec.Diff() {
